@@ -181,6 +181,7 @@ type modOpts struct {
 	pkgTagBias int  // 0..: probability weight of package-level tags
 	maxDecls   int
 	imports    bool // intra-module imports
+	std        bool // a quarter of the packages also (blank-)import a package of the standard library
 }
 
 var modPaths = []string{"m", "example.com/m", "a.b.c/d-e/f", "example.com/mod/v2", "github.com/Org/repo"}
@@ -275,6 +276,9 @@ func genPkg(t *rapid.T, m *modspec.Mod, idx int, dir, name string, o modOpts, la
 		}
 		if rapid.IntRange(0, 4).Draw(t, "header") == 0 {
 			f.Header = []string{"Copyright header", "+gengo:" + o.gens[0]}
+		}
+		if o.std && fi == 0 && rapid.IntRange(0, 3).Draw(t, "stdimport") == 0 {
+			f.Imports = append(f.Imports, rapid.SampledFrom([]string{"time", "errors", "sort"}).Draw(t, "stdpkg")) // blank import of a standard library package
 		}
 		if o.imports && fi == 0 {
 			for _, l := range later {
